@@ -2744,6 +2744,8 @@ def check_C12(res):
     configs = [(60000, 4096, 0, 0), (200, 4096, 0, 0), (3000, 16384, 1, 0), (200, 4096, 50, 2000), (60000, 4096, 3, 3000),
                # containers larger than the stream buffer (128 KiB), consumer that stalls
                (3000, 262144, 20, 2000, (3, 12, 36)), (40000, 524288, 4, 2000, (3, 10, 24))]
+    # long runs of objects of a type the reader does not know (a file of a newer tool version): skipped, not delivered
+    configs += [(200, 4096, 0, 0, (4, 32, 256), 1000000), (3000, 16384, 0, 0, (4, 32, 128), 50)]
     if res.tier == 'thorough':
         configs += [(300000, 65536, 0, 0), (1000, 1048576, 0, 0, (4, 16, 64)), (60000, 4096, 0, 0), (200, 4096, 0, 0), (3000, 262144, 0, 0, (4, 16, 64, 128))]
     reqs = []
@@ -2751,11 +2753,12 @@ def check_C12(res):
     for cfg in configs:
         (payload, cs, stall_every, stall_us) = cfg[:4]
         per_obj = payload + 48
+        unk = cfg[5] if len(cfg) > 5 else 0
         for ncont in (cfg[4] if len(cfg) > 4 else (4, 32, 256) if res.tier == 'quick' else (4, 16, 64, 256, 1024)):
             n = max(1, (ncont * cs) // per_obj)
             for rep in range(2):
-                reqs.append('heap %d %d %d %d %d %d' % (n, payload, cs, 0 if payload > 1000 else 1, stall_every, stall_us))
-                meta.append((payload, cs, stall_every, ncont, n))
+                reqs.append('heap %d %d %d %d %d %d %d' % (n, payload, cs, 0 if payload > 1000 else 1, stall_every, stall_us, unk))
+                meta.append((payload, cs, stall_every + 1000 * unk, ncont, n))
     ans, rc, err = lib.psession(fexe, reqs, nproc=8, env=env, timeout=7200)
     if len(ans) != len(reqs):
         res.oblige('D:heap-session', False, '%d answers for %d requests %s' % (len(ans), len(reqs), err[-400:]))
